@@ -313,8 +313,12 @@ func (c *wsConn) handleOutChans() {
 			Method:  chValue,
 			Params:  rp,
 		}); err != nil {
+			// The value is lost with its connection, but this goroutine serves every
+			// output channel of the wsConn for as long as it lives (it exits with
+			// c.exiting): on a reconnecting client it must survive the old connection,
+			// or no later call could ever register a channel again.
 			log.Warnf("sendRequest failed: %s", err)
-			return
+			continue
 		}
 	}
 }
